@@ -205,13 +205,17 @@ class Edate(_D):
     name = 'C14.edate'
     doc = 'EDATE moves by whole months keeping the day of month, clamped to the length of the target month; #NUM! outside 1900..9999'
     functions = ('dateandtime.EDATE',)
-    bounds = 'every date 1900..9999 (month split), every offset in -120000..120000'
+    bounds = 'every date 1900..9999 (month split), every integer offset in -120000..120000, fractional offsets in +-600 (truncated towards zero)'
     case_timeout_s = {'quick': 200, 'thorough': 1500}
 
     def cases(self, tier):
-        return [{'month': m} for m in range(1, 13)]
+        return [{'month': m, 'kf': False} for m in range(1, 13)] + [{'month': m, 'kf': True} for m in (1, 3, 4, 12)]
 
     def build(self, e, p):
+        if p.get('kf'):
+            # a fractional month offset is truncated towards zero (as INT does not: -2.5 months is 2 months back)
+            k = e.fresh_real('k', -600, 600)
+            return {'a': dates.fresh_datetime(e, 'a', month=p['month']), 'k': k}
         return {'a': dates.fresh_datetime(e, 'a', month=p['month']), 'k': e.fresh_int('k', -120000, 120000)}
 
     def run(self, env, inp, p):
@@ -222,7 +226,11 @@ class Edate(_D):
             return False
         a = as_sym_dt(inp['a'])
         y, m, d = a._ymd()
-        k = zint(inp['k'])
+        if p.get('kf'):
+            kr = _floatval_nofork(inp['k'])
+            k = z3.If(kr >= 0, z3.ToInt(kr), -z3.ToInt(-kr))
+        else:
+            k = zint(inp['k'])
         idx = 12 * y + (m - 1) + k
         y2 = fdiv(idx, z3.IntVal(12))
         m2 = fmod(idx, z3.IntVal(12)) + 1
